@@ -25,13 +25,14 @@ ASSUMPTIONS = [
 ENC = {"none": 1, "gzip": 1 | 2, "compress": 1 | 4, "deflate": 1 | 8}
 
 
-def compress(data, enc):
+def compress(data, enc, wbits=15, level=6):
+    """per-chunk compression as a caster might do it: any window size 2^9..2^15 and any level are valid streams"""
     if enc == "gzip":
-        c = zlib.compressobj(6, zlib.DEFLATED, zlib.MAX_WBITS | 16)
+        c = zlib.compressobj(level, zlib.DEFLATED, wbits | 16)
     elif enc == "compress":
-        c = zlib.compressobj(6, zlib.DEFLATED, zlib.MAX_WBITS)
+        c = zlib.compressobj(level, zlib.DEFLATED, wbits)
     elif enc == "deflate":
-        c = zlib.compressobj(6, zlib.DEFLATED, -zlib.MAX_WBITS)
+        c = zlib.compressobj(level, zlib.DEFLATED, -wbits)
     else:
         return data
     return c.compress(data) + c.flush()
@@ -52,7 +53,7 @@ def encode(case):
     out = bytearray()
     spans = []
     for i, ch in enumerate(case["chunks"]):
-        body = compress(bytes.fromhex(ch), case["enc"])
+        body = compress(bytes.fromhex(ch), case["enc"], case.get("wbits", 15), case.get("level", 6))
         hx = f"{len(body):x}"
         style = case["hexcase"][i % len(case["hexcase"])]
         if style == 1:
@@ -148,6 +149,8 @@ def o_chunked(case):
     n = len(encoded)
     mode = case["mode"]
     cls = set([f"enc-{case['enc']}", mode])
+    if case["enc"] != "none" and case.get("wbits", 15) != 15:
+        cls.add("small-compression-window")
     if case["enc"] != "none" and any(c == "" for c in case["chunks"]):
         cls.add("compressed-chunk-with-empty-body")
     digs = []
@@ -197,7 +200,7 @@ _DATA = st.one_of(
     st.lists(st.sampled_from(list(b"\r\n0123456789abcdefABCDEF\r\n\r\n")), min_size=1, max_size=20).map(bytes),
     st.binary(min_size=1, max_size=30),
     st.sampled_from([1, 9, 10, 15, 16, 17, 255, 256, 257, 300]).flatmap(lambda n: st.binary(min_size=n, max_size=n)),
-    st.sampled_from([b"\r\n", b"\r", b"\n", b"0\r\n\r\n", b"a\r\nb", b"\r\n3\r\nabc\r\n"]),
+    st.sampled_from([b"\r\n", b"\r", b"\n", b"0\r\n\r\n", b"a\r\nb", b"\r\n3\r\nabc\r\n", b"0\r\n", b"$GNGGA,1*70\r\n", b"10\r\n", b"0", b"\r\n0\r\n"]),
 )
 
 
@@ -220,7 +223,7 @@ def s_chunked(draw, tier):
                 case["chunks"] = [case["chunks"][0][:2]]
         return case
     if mode == "all_1_2_cuts":
-        chunks = draw(st.lists(st.one_of(st.binary(min_size=1, max_size=12), st.sampled_from([b"\r\n", b"0123456789abcdef", b"\r\n3\r\nabc\r\n"])), min_size=1, max_size=4))
+        chunks = draw(st.lists(st.one_of(st.binary(min_size=1, max_size=12), st.sampled_from([b"\r\n", b"0123456789abcdef", b"\r\n3\r\nabc\r\n", b"0\r\n", b"$GNGGA,1*70\r\n", b"0"])), min_size=1, max_size=4))
         if enc != "none":
             chunks = chunks[:2]
     else:
@@ -236,6 +239,9 @@ def s_chunked(draw, tier):
         "terminator": draw(st.booleans()),
         "mode": mode,
     }
+    if enc != "none":
+        case["wbits"] = draw(st.sampled_from([15, 15, 9, 10, 12, 14]))
+        case["level"] = draw(st.sampled_from([6, 6, 0, 1, 9]))
     n = len(encode(case)[0])
     if mode == "all_1_2_cuts" and n > 120:
         case["mode"] = mode = "generated"
@@ -259,7 +265,7 @@ SUBS = [
         examples=(150, 3000),
         exhaustive=True,
         rule="partitions enumerated completely for short streams (all compositions for n <= 15; all 1- and 2-cut partitions for n <= 120), generated beyond; non-trivial = cut inside size line / chunk data / terminating CRLF",
-        need={"cut-in-size-line": 1, "cut-in-chunk-data": 1, "cut-inside-terminating-crlf": 1, "cut-between-data-and-crlf": 1, "enc-gzip": 1, "enc-deflate": 1, "enc-compress": 1, "all_partitions": 1},
+        need={"cut-in-size-line": 1, "cut-in-chunk-data": 1, "cut-inside-terminating-crlf": 1, "cut-between-data-and-crlf": 1, "enc-gzip": 1, "enc-deflate": 1, "enc-compress": 1, "all_partitions": 1, "small-compression-window": 1},
         sample=_short,
     ),
 ]
